@@ -315,6 +315,54 @@ def exact_prob(num, L):
     return ring.to_complex(num).real / L
 
 
+EARLY = {"obj": None, "circ": None}      # an emulator object created on the target circuit BEFORE the program's construction calls ran
+
+
+def make_early(c, name):
+    """Simulator / Sampler / Analyzer / QuickSampler hold on to the circuit object: created first, used last, they must see the finished circuit"""
+    from lightworks import emulator as emu
+    EARLY["obj"], EARLY["circ"] = None, None
+    try:
+        vac = lw.State([0] * c.input_modes)
+        obj = {"simulate": lambda: emu.Simulator(c), "sdist": lambda: emu.Sampler(c, vac), "analyze": lambda: emu.Analyzer(c),
+               "quick": lambda: emu.QuickSampler(c, vac)}[name]()
+        EARLY["obj"], EARLY["circ"] = obj, c
+    except Exception:  # noqa: BLE001
+        pass
+
+
+def check_early(c, name, a, ins, exp_fn, state):
+    """the same read through the early object; returns list of (clause, detail)"""
+    obj = EARLY["obj"]
+    if obj is None or EARLY["circ"] is not c:
+        return []
+    EARLY["obj"] = None
+    what = "%s object created before the circuit was built" % type(obj).__name__
+    try:
+        if name == "simulate":
+            r = obj.simulate(state(ins))
+            got = {tuple(o.s): r.array[0, j] for j, o in enumerate(r.outputs)}
+        elif name == "sdist":
+            obj.input_state = state(ins)
+            got = {tuple(s.s): p for s, p in obj.probability_distribution.items()}
+        elif name == "analyze":
+            pso = ps_object(a[1])
+            if pso is not None:
+                obj.post_selection = pso
+            r = obj.analyze(state(ins))
+            got = {tuple(o.s): r.array[0, j] for j, o in enumerate(r.outputs)}
+        else:
+            obj.input_state = state(ins)
+            obj.photon_counting = a[2]
+            pso = ps_object(a[1])
+            if pso is not None:
+                obj.post_select = pso
+            got = {tuple(s.s): p for s, p in obj.probability_distribution.items()}
+    except Exception as e:  # noqa: BLE001
+        return [("read_raised/%s/%s" % (name, type(e).__name__), "%s: %s raised %s: %s" % (what, name, type(e).__name__, e))]
+    return exp_fn(got, what)
+
+
 def check_read(c, ev, res, spec_c, order, M=None):
     """execute the read action ev on circuit c and compare with the specification's result `res`.
     returns list of (clause, detail)"""
@@ -364,6 +412,8 @@ def _check_read(c, ev, res, spec_c, order, name, a, ins, expect_ok, flt, P, stat
                 if abs(got[o] - exp[o]) > TOL:
                     out.append(("amplitude", "amplitude %s -> %s is %s, exact value %s" % (ins, o, got[o], exp[o])))
                     break
+            out += check_early(c, name, a, ins, lambda g, what: [("amplitude", "%s: amplitudes differ from the exact values" % what)]
+                               if set(g) != set(exp) or any(abs(g[o] - exp[o]) > TOL for o in exp) else [], state)
             # several inputs at once, explicit outputs in a different order: the same amplitudes must come back
             if expect_ok and len(exp) >= 2:
                 outs_sorted = sorted(exp, reverse=True)
@@ -440,6 +490,8 @@ def _check_read(c, ev, res, spec_c, order, name, a, ins, expect_ok, flt, P, stat
                 if abs(dists["permanent"].get(pat, 0.0) - dists["slos"].get(pat, 0.0)) > 1e-8:
                     out.append(("dist_backend_mismatch", "permanent %.9g vs slos %.9g on %s" % (dists["permanent"].get(pat, 0), dists["slos"].get(pat, 0), pat)))
                     break
+            out += check_early(c, name, a, ins, lambda g, what: [("dist", "%s: distribution differs from the exact one" % what)]
+                               if any(abs(g.get(o, 0.0) - exp.get(o, 0.0)) > 1e-9 * (1 + len(exp) * (nloss + 1)) for o in set(g) | set(exp)) else [], state)
         elif name == "analyze":
             L, table = res
             table = table if isinstance(table, dict) else {}
@@ -464,6 +516,8 @@ def _check_read(c, ev, res, spec_c, order, name, a, ins, expect_ok, flt, P, stat
                     break
             if abs(r.performance - sum(exp.values())) > 1e-8:
                 out.append(("performance", "performance %.9g, expected mean accepted total %.9g" % (r.performance, sum(exp.values()))))
+            out += check_early(c, name, a, ins, lambda g, what: [("analyzer", "%s: table differs from the sampler-exact one" % what)]
+                               if set(g) != set(exp) or any(abs(g[o] - exp[o]) > 1e-8 for o in exp) else [], state)
             # error rate against the first accepted output as the expected one
             # several inputs in ONE call: performance is the mean accepted total, the error rate the mean of the per-input rates
             if M is not None and sum(ins) >= 1:
@@ -534,6 +588,8 @@ def _check_read(c, ev, res, spec_c, order, name, a, ins, expect_ok, flt, P, stat
                 if abs(got.get(o, 0.0) - exp.get(o, 0.0) / tot) > 1e-8:
                     out.append(("quick", "quick sampler P(%s) = %.9g, conditioned sampler value %.9g" % (o, got.get(o, 0.0), exp.get(o, 0.0) / tot)))
                     break
+            out += check_early(c, name, a, ins, lambda g, what: [("quick", "%s: distribution differs from the conditioned sampler distribution" % what)]
+                               if any(abs(g.get(o, 0.0) - exp.get(o, 0.0) / tot) > 1e-8 for o in set(g) | set(exp)) else [], state)
             # the post-selection given as a function: first a different predicate from the same factory, then the real one
             if a[1]:
                 def factory(rules):
@@ -806,6 +862,10 @@ def dump_worker(st, ctx):
     else:
         # structure decided by TLC, numbers by the (calibrated) evaluator
         exp_sem = None
+    if prog and prog[-1][1] in ("simulate", "sdist", "analyze", "quick") and prog[-1][0] == "ok" and prog[-1][2] in objs:
+        make_early(objs[prog[-1][2]], prog[-1][1])
+    else:
+        EARLY["obj"] = None
     try:
         f = replay(prog, objs, circ, exp_sem, params, pval)
         if exp_sem is None and not f:
